@@ -244,7 +244,10 @@ func runEntryPoints() int {
 		} else {
 			obs.OK = cerr == nil
 			if cerr != nil {
-				obs.Note = cerr.Error()
+				var ep bool
+				if obs.Note, ep = errText(cerr); ep {
+					obs.Panic = true
+				}
 			}
 			if outcome != nil {
 				obs.Outcome = "present"
